@@ -27,6 +27,9 @@ func runC07(c *Ctx) {
 	c07R4(c)
 	c07R5(c)
 	c07R6(c)
+	c07R11(c)
+	c08R9As(c, c.R.Rule("R9", "K6 (= C08.R9) the error lands on the record that was rejected: with filtered records present, Batch.setFlagNoErr/setFlagWithErr address recordStatuses only through the active-index map, entry by entry", 4))
+	c01R1As(c, c.R.Rule("R10", "K1 (= C01.R1) closed ack entry points: Worker.Ack (which also credits the DLQ window) is reached only from the tabled ack-forwarding functions — never from the nack path, which would count a dead-lettered record as a nack and an ack", 13))
 }
 
 func c07R2(c *Ctx) {
@@ -374,4 +377,60 @@ func c07R6(c *Ctx) {
 	g.AddEdges(kit.IntRangeEdges(fn, func(x ssa.Value) bool { return field(x, "WindowSize") }, math.MinInt64, 0), "WindowSize == 0 (window disabled)")
 	c.Dominated(r, "UpdateDLQ: threshold must be lower than a non-zero window", stores, g, "WindowSize > WindowNackThreshold (or WindowSize == 0)")
 	_ = types.Typ
+}
+
+// c07R11: every record outcome reaches the nack window of the v1 DLQ handler.
+func c07R11(c *Ctx) {
+	r := c.R.Rule("R11", "K4 v1 window sees every outcome: in DLQHandlerNode.Ack every exit has credited the window, except the not-running and watch-failed exits (no message — filtered or not — is skipped; the v2 engine counts filtered records as acks too)", 1)
+	fn := c.SSA(r, pStream, "(*DLQHandlerNode).Ack")
+	winF := c.Field(r, pStream, "DLQHandlerNode", "window")
+	running := c.W.LookupObj(pStream, "nodeStateRunning")
+	ack := c.Fn(r, pStream, "(*dlqWindow).Ack")
+	if fn == nil || winF == nil || ack == nil {
+		return
+	}
+	g := kit.NewGates()
+	for _, call := range kit.CallsTo(fn, Set(ack)) {
+		g.AddInstr(call, "window.Ack()")
+	}
+	edges := kit.CmpEdges(fn, func(b *ssa.BinOp) (bool, bool) {
+		if isGlobalLoad(b.Y, running) || isGlobalLoad(b.X, running) {
+			switch b.Op {
+			case token.EQL:
+				return true, true
+			case token.NEQ:
+				return true, false
+			}
+		}
+		return false, false
+	})
+	if g.Empty() || len(edges) == 0 {
+		c.R.Fail(r, "DLQHandlerNode.Ack: window credit", c.Pos(fn.Pos()), "window.Ack() or the state==running test not found")
+		return
+	}
+	// every exit of the function has credited the window, except the exits for "not running" and
+	// "message context cancelled" (the state watch failed)
+	notRunning := kit.CmpEdges(fn, func(b *ssa.BinOp) (bool, bool) {
+		if isGlobalLoad(b.Y, running) || isGlobalLoad(b.X, running) {
+			switch b.Op {
+			case token.EQL:
+				return true, false
+			case token.NEQ:
+				return true, true
+			}
+		}
+		return false, false
+	})
+	g.AddEdges(notRunning, "state != running")
+	for _, b := range fn.Blocks {
+		for _, in := range b.Instrs {
+			if call, ok := in.(*ssa.Call); ok && call.Call.Method == nil {
+				if f := kit.CalleeOf(call.Common()); f != nil && f.Name() == "Watch" {
+					g.AddEdges(kit.FailEdges(call), "state watch failed")
+				}
+			}
+		}
+	}
+	ok, _ := kit.AllExitsFromEdge(kit.Edge{To: fn.Blocks[0]}, false, kit.ExitSpec{Gates: g})
+	c.R.Check(ok, r, "DLQHandlerNode.Ack: every acked message credits the window while the node runs", c.Pos(fn.Pos()), "ok", "an exit of DLQHandlerNode.Ack behind the running test skips window.Ack() (e.g. for filtered messages): older nacks are then never pushed out of the window and a rejection the window rule permits stops the pipeline — and the two engines no longer decide alike", true)
 }
